@@ -3,11 +3,11 @@
 cd /verif || exit 2
 patch=$1; shift
 props=${@:-$(python3 -c "import json;print(' '.join(c['property_id'] for c in json.load(open('MANIFEST.json'))['checks']))")}
-git -C /repo apply "$patch" || { echo "patch does not apply to /repo"; exit 3; }
+git -C /repo apply "$patch" 2>/dev/null || git -C /repo apply --3way "$patch" 2>/dev/null || { echo "patch does not apply to /repo"; git -C /repo reset -q --hard HEAD; exit 3; }
 mkdir -p /tmp/seed_ev_$$/evidence; cp known_findings.json /tmp/seed_ev_$$/; hit=""
 out=$(bin/stfscheck -p all -tier quick -verif /tmp/seed_ev_$$ 2>&1)
 echo "$out" | grep -E "^  (VIOLATED|UNDECIDED)|^BROKEN|^UNRESOLVED" | cut -c1-330
 hit=$(echo "$out" | grep -E "^result C[0-9]+:.*exit=[12]" | sed -E 's/^result (C[0-9]+):.*/\1/' | tr '\n' ' ')
-git -C /repo checkout -- . ; git -C /repo clean -qfd
+git -C /repo reset -q --hard HEAD ; git -C /repo clean -qfd
 rm -rf /tmp/seed_ev_$$
 echo "FLAGGED BY:${hit:- none}"
